@@ -192,6 +192,23 @@ def harness(tier, seed):
                              f"cities {bad[0] + 1} and {bad[1] + 1}: loaded {got[bad[0]][bad[1]]}, TSPLIB95 {want[bad[0]][bad[1]]}"))
         except Exception as ex:
             viol.append(("coordinates/EUC_2D", {"points": pts}, repr(ex)))
+    # --- number notations: TSPLIB95 reals may be written with an exponent and without a decimal point ("1e+06" is what C's
+    # %g prints for a million, "2e-05" is Python's repr of 0.00002), in either case of the letter
+    pts = [(1000000.0, 0.0), (0.0, 2000000.0), (300000.0, 400000.0), (0.00002, 0.5), (7.0, 24.0)]
+    for style in ("%g", "%G", "%.6e", "repr"):
+        fmt_ = (lambda v: repr(v)) if style == "repr" else (lambda v, st=style: st % v)
+        n = len(pts)
+        txt = ["NAME: notation", "TYPE: TSP", f"DIMENSION: {n}", "EDGE_WEIGHT_TYPE: EUC_2D", "NODE_COORD_SECTION"] + \
+              [f"{k + 1} {fmt_(p[0])} {fmt_(p[1])}" for k, p in enumerate(pts)] + ["EOF"]
+        want = [[0 if i == j else d_euc(pts[i], pts[j]) for j in range(n)] for i in range(n)]
+        try:
+            got = np.array(ti._from_stream(iter(txt), lambda _: 0)).tolist()
+            evals += 1
+            distinct.add(("notation", style))
+            if got != want:
+                viol.append(("coordinates/number-notation", {"style": style, "text": txt}, f"loaded {got} TSPLIB95 {want}"))
+        except Exception as ex:
+            viol.append(("coordinates/number-notation", {"style": style, "text": txt}, repr(ex)))
     # --- shipped optimal tours: exhaustive over the data
     ntours = 0
     for name in list_resource_tours():
